@@ -65,9 +65,21 @@ def trial(ra, rb, a_high, mangle=None, chunk=None, rng=None, dial_from="a"):
             if not b.disconnected:
                 size = len(b.incomingVocabulary)
                 idx = [k for k, n in vocsize().items() if n == size]
-                out.append((b._banana_decision_version, idx[0] if len(idx) == 1 else ("size", size)))
+                from foolscap import vocab as _v
+                # the tables themselves (both directions) must be the negotiated table, word for word
+                same = (len(idx) == 1 and sorted(b.incomingVocabulary.values()) == sorted(_v.INITIAL_VOCAB_TABLES[idx[0]])
+                        and sorted(b.outgoingVocabulary.keys()) == sorted(_v.INITIAL_VOCAB_TABLES[idx[0]]))
+                out.append((b._banana_decision_version, idx[0] if same else ("table", size, sorted(b.incomingVocabulary.values())[:3])))
         return out
     r = (params(A), params(B), [getattr(x, "type", x) for x in res])
+    # the two Negotiation objects of the (first) connection, before anything is torn down: (isClient, receive_phase, send_phase,
+    # switched to Banana?) -- compared with the phase machine of lib/NegWire.v
+    trial.last_phases = []
+    if len(net.links) == 1:
+        for e in net.links[0].ends:
+            p = e.protocol
+            if isinstance(p, neg.Negotiation):
+                trial.last_phases.append((bool(p.isClient), p.receive_phase, p.send_phase, "dataReceived" in vars(p), p.tub is A))
     for t in (A, B):
         t.stopService()
     E.turn()
@@ -127,6 +139,7 @@ def sweep(ctx):
                     ctx.case(["sweep", ra, rb, a_high], nontrivial=len(res) == 1)
                     ctx.hist("sweep_outcome", "banana" if pa else "failed")
                     cfg["obs"] = (pa[0] if len(pa) == 1 else None, pb[0] if len(pb) == 1 else None)
+                    cfg["phases"] = list(trial.last_phases)
                     cases.append(cfg)
         # version skew: one side also offers a version (4) that the other does not implement; the common version is still chosen,
         # and a refusal after the roles are known must still reach the other side as a negotiation error
@@ -154,6 +167,7 @@ def sweep(ctx):
                     ctx.case(["hash", ra, rb, a_high], nontrivial=len(res) == 1)
                     ctx.hist("hash_mismatch_outcome", "banana" if pa else "failed")
                     cfg["obs"] = (pa[0] if len(pa) == 1 else None, pb[0] if len(pb) == 1 else None)
+                    cfg["phases"] = list(trial.last_phases)
                     cases.append(cfg)
     ctx.sample(dict(kind="sweep", case={k: v for k, v in cases[5].items()}))
     ctx.sample(dict(kind="hash-mismatch", case={k: v for k, v in cases[-1].items()}))
